@@ -146,7 +146,7 @@ uint64_t tv_sample(const uint64_t *in) {
   case 3: f = s.sample_left_vacuum(d[0], uu, d[2], d[3], r, u, p, dx); break;
   default: f = s.sample_vacuum_generation(d[0], -d[1], d[2], d[3], d[6], d[1] + 20., d[8], d[4], r, u, p, dx); break; }
   uint64_t h = (uint64_t)(f + 1), b; double o[3] = {r, u, p};
-  for (int k = 0; k < 3; ++k) { __builtin_memcpy(&b, &o[k], 8); h = h * 1000003u + b; }
+  for (int k = 0; k < 3; ++k) { __builtin_memcpy(&b, &o[k], 8); if (o[k] != o[k]) b = 0x7ff8000000000000ULL; /* one NaN (sign and payload are not part of the comparison) */ h = h * 1000003u + b; }
   return h;
 }
 }
